@@ -96,8 +96,8 @@ class Exec(Engine):
     # ------------------------------------------------------------------
     # helpers
     # ------------------------------------------------------------------
-    def feasible(self, st):
-        if smt.quick_unsat(st.pc + self.light_axioms()):
+    def feasible(self, st, full=False):
+        if smt.quick_unsat(st.pc + self.light_axioms(), full=full):
             self.stats['pruned'] += 1
             return False
         return True
@@ -170,6 +170,13 @@ class Exec(Engine):
         n = e.id
         if n in st.env:
             v = st.env[n]
+            if v.kind == 'opt':
+                # an optional whose case was decided by an earlier test on this path reads as that case
+                for t in reversed(st.pc):
+                    if t.eq(v.is_none):
+                        return [Result(st, NONE)]
+                    if z3.is_not(t) and t.arg(0).eq(v.is_none):
+                        return [Result(st, v.val)]
             return [Result(st, v)]
         if n in st.globals:
             return [Result(st, st.globals[n])]
@@ -715,7 +722,10 @@ class Exec(Engine):
 
     def call_contract(self, st, c, fnode, args, kwargs, node, starv=None, dstar=None, self_val=None):
         line = getattr(node, 'lineno', 0)
-        env = self.bind_params(fnode, args, kwargs, st, starv, dstar, self_val)
+        try:
+            env = self.bind_params(fnode, args, kwargs, st, starv, dstar, self_val)
+        except ArityError:
+            return [self.exc(st, 'TypeError')]      # python: wrong number of arguments
         self.used_contracts.add(c.key)
         # ghost record of calls made to contracted functions (for `internal` postconditions of the caller)
         st = st.copy()
@@ -743,6 +753,10 @@ class Exec(Engine):
                     post.env['result'] = self.sev(alt[6:-1], post)
                 else:
                     post.env['result'] = self.make_input(post, 'ret_' + c.qualname.replace('.', '_'), alt)
+                for path, expr in (c.extra.get('installs') or {}).items():
+                    pe = ast.parse(path, mode='eval').body
+                    base = self.sev(pe.value, post)
+                    post.setnode(base, post.node(base).replace(**{pe.attr: self.sev(expr, post)}))
                 for ens in c.ensures:
                     post.assume(self.sbool(ens, post))
                 if self.feasible(post):
@@ -1729,6 +1743,10 @@ class Exec(Engine):
                     self.oblige(post, 'post%d' % k, self.sbool(ens, post), fnode.lineno)
                 for k, ens in enumerate(c.internal):
                     self.oblige(post, 'internal%d' % k, self.sbool(ens, post), fnode.lineno)
+                for path, expr in (c.extra.get('installs') or {}).items():
+                    # `installs`: on return the field holds exactly that object (identity); callers get the alias
+                    self.oblige(post, 'installs/%s' % path, self.identical(post, self.sev(path, post), self.sev(expr, post)),
+                                fnode.lineno)
                 self.frame_obligations(c, entry, post, fnode)
                 # vacuity sentinel: must NOT be provable
                 self.oblige(post, 'sentinel/exit-reachable', z3.BoolVal(False), fnode.lineno)
